@@ -7,7 +7,9 @@ package main
 //   output: one JSON object for the LAST Process call:
 //     {"loads":[..], "errors":n, "errtext":[..],
 //      "ids":[{"decl":"<M|S>/<full name of the declaring (sub)module>:<identity>","values":[decl,..]}],
-//      "leaves":[{"name":leaf,"in":"<M|S>/<full name>","base":decl,"values":[decl,..]}]}      (identityref leaves)
+//      "leaves":[{"name":leaf,"in":"<M|S>/<full name>","base":decl,"values":[decl,..]}]}      (identityref leaves;
+//                a leaf whose type is a union has "base":"-union" and "union":[member,..], each member with its
+//                base and values, members of other kinds with "base":"-<kind>")
 //   identities and leaves are listed only when Process reported no error.
 
 import (
@@ -27,10 +29,11 @@ type c11Ident struct {
 }
 
 type c11Leaf struct {
-	Name   string   `json:"name"`
-	In     string   `json:"in"`
-	Base   string   `json:"base"`
-	Values []string `json:"values"`
+	Name   string     `json:"name"`
+	In     string     `json:"in"`
+	Base   string     `json:"base"`
+	Values []string   `json:"values"`
+	Union  []*c11Leaf `json:"union,omitempty"` // member types of a union leaf, in order (Base "-<kind>" for other kinds)
 }
 
 type c11Out struct {
@@ -72,7 +75,22 @@ func c11Walk(e *yang.Entry, in string, depth int, seen map[*yang.Entry]bool, out
 		return
 	}
 	seen[e] = true
-	if e.Kind == yang.LeafEntry && e.Type != nil && e.Type.IdentityBase != nil {
+	if e.Kind == yang.LeafEntry && e.Type != nil && e.Type.Kind == yang.Yunion {
+		lf := &c11Leaf{Name: e.Name, In: in, Base: "-union", Values: []string{}}
+		for _, u := range e.Type.Type {
+			switch {
+			case u == nil:
+				lf.Union = append(lf.Union, &c11Leaf{Base: "<nil>", Values: []string{}})
+			case u.IdentityBase != nil:
+				lf.Union = append(lf.Union, &c11Leaf{Base: c11Decl(u.IdentityBase), Values: c11Values(u.IdentityBase)})
+			case u.Kind == yang.Yidentityref:
+				lf.Union = append(lf.Union, &c11Leaf{Base: "<nil>", Values: []string{}})
+			default:
+				lf.Union = append(lf.Union, &c11Leaf{Base: "-" + yang.TypeKindToName[u.Kind], Values: []string{}})
+			}
+		}
+		out.Leaves = append(out.Leaves, lf)
+	} else if e.Kind == yang.LeafEntry && e.Type != nil && e.Type.IdentityBase != nil {
 		out.Leaves = append(out.Leaves, &c11Leaf{Name: e.Name, In: in, Base: c11Decl(e.Type.IdentityBase), Values: c11Values(e.Type.IdentityBase)})
 	} else if e.Kind == yang.LeafEntry && e.Type != nil && e.Type.Kind == yang.Yidentityref {
 		out.Leaves = append(out.Leaves, &c11Leaf{Name: e.Name, In: in, Base: "<nil>", Values: []string{}})
